@@ -527,6 +527,7 @@ fn sp_name(sp: Sp) -> &'static str {
 
 fn record_classes(case: &Case, reach: &BTreeSet<usize>, rec: &mut Rec) -> bool {
     let mut any_mod = false;
+    let (_, tainted) = macro_flags(&case.macros);
     let mut bodies: Vec<(&Body, &str)> = vec![(&case.main, "main")];
     for m in reach {
         bodies.push((&case.macros[*m].body, "body"));
@@ -561,6 +562,19 @@ fn record_classes(case: &Case, reach: &BTreeSet<usize>, rec: &mut Rec) -> bool {
             }
             if let Target::Elem { name, .. } = &s.target {
                 rec.class(&format!("op={name}"));
+            }
+            let ow = match &s.target {
+                Target::Elem { name, .. } => one_way(name),
+                Target::Macro(j) => tainted[*j],
+            };
+            if ow && b.piped {
+                let marks = match (s.omit_fwd.is_some(), s.omit_inv.is_some()) {
+                    (false, false) => "plain",
+                    (false, true) => "omit_inv",
+                    (true, false) => "omit_fwd",
+                    (true, true) => "omit_both",
+                };
+                rec.class(&format!("one-way:{place}:{kind}:{marks}{}", if s.inv.is_some() { "+inv" } else { "" }));
             }
         }
     }
@@ -834,6 +848,91 @@ fn elem(sel: u16, a: u16, b: u16, c: u16) -> (String, Vec<Param>) {
 
 // ---- generator ---------------------------------------------------------------------------------
 
+// ---- operators without an inverse -------------------------------------------------------------------
+//
+// `gravity` and `curvature` have no inverse: applied stand-alone in the inverse direction they leave
+// the data alone and report 0 (the library's placeholder). That is what the reference does too,
+// because it applies the stand-alone operator through ctx.apply. They never carry `inv`, and a macro
+// is invoked with `inv` only if every such operator below it is shielded by an omit_inv (on the step
+// itself or on an enclosing macro step inside that macro): `inv` on anything else is documented to be
+// refused (Error::NonInvertible) or is at least not promised to work ("a pipeline can be inverted as
+// long as each of its steps can").
+
+const GRAV: [&str; 5] = ["grs80", "grs67", "welmec", "jeffreys", "cassinis"];
+const CURV: [&str; 4] = ["prime", "meridian", "gaussian", "mean"];
+
+fn one_way(name: &str) -> bool {
+    name == "gravity" || name == "curvature"
+}
+
+fn one_way_elem(a: u16, b: u16, c: u16) -> (String, Vec<Param>) {
+    if a & 1 == 1 {
+        let mut p = vec![fl(GRAV[pick(b, GRAV.len())])];
+        if c & 1 == 1 {
+            p.push(fl("zero-height"));
+        }
+        if c & 2 == 2 {
+            p.push(kv("ellps", ELLPS[pick(c, 4)]));
+        }
+        ("gravity".to_string(), p)
+    } else {
+        let mut p = vec![fl(CURV[pick(b, CURV.len())])];
+        if c & 1 == 1 {
+            p.push(kv("ellps", ELLPS[pick(c, 4)]));
+        }
+        ("curvature".to_string(), p)
+    }
+}
+
+/// shielded[m]: every one-way operator below macro m sits under an omit_inv inside m
+fn shielded_body(b: &Body, shielded: &[bool]) -> bool {
+    b.steps.iter().all(|s| {
+        s.omit_inv.is_some()
+            || match &s.target {
+                Target::Elem { name, .. } => !one_way(name),
+                Target::Macro(j) => shielded[*j],
+            }
+    })
+}
+/// tainted[m]: some one-way operator below macro m
+fn tainted_body(b: &Body, tainted: &[bool]) -> bool {
+    b.steps.iter().any(|s| match &s.target {
+        Target::Elem { name, .. } => one_way(name),
+        Target::Macro(j) => tainted[*j],
+    })
+}
+fn macro_flags(macros: &[MacroDef]) -> (Vec<bool>, Vec<bool>) {
+    let mut sh: Vec<bool> = vec![];
+    let mut ta: Vec<bool> = vec![];
+    for m in macros {
+        let (a, b) = (shielded_body(&m.body, &sh), tainted_body(&m.body, &ta));
+        sh.push(a);
+        ta.push(b);
+    }
+    (sh, ta)
+}
+/// No `inv` on a one-way operator nor on a macro that is not shielded (macros only use earlier macros).
+fn strip_unsound_inv(case: &mut Case) {
+    let mut sh: Vec<bool> = vec![];
+    let fix = |b: &mut Body, sh: &[bool]| {
+        for s in b.steps.iter_mut() {
+            let ok = match &s.target {
+                Target::Elem { name, .. } => !one_way(name),
+                Target::Macro(j) => sh[*j],
+            };
+            if !ok {
+                s.inv = None;
+            }
+        }
+    };
+    for i in 0..case.macros.len() {
+        fix(&mut case.macros[i].body, &sh);
+        let v = shielded_body(&case.macros[i].body, &sh);
+        sh.push(v);
+    }
+    fix(&mut case.main, &sh);
+}
+
 /// macro names: the ':' makes them resource names; some contain modifier words on purpose
 const NAMES: [&str; 6] = ["m:a", "lib:b", "x:inv", "inv:c", "omit_fwd:d", "geo:e"];
 
@@ -848,6 +947,7 @@ struct RawStep {
     of: Option<u8>,
     oi: Option<u8>,
     lay: u32,
+    ow: u8, // < 20: an operator without an inverse (gravity, curvature); also biases omit_inv on one-way steps
 }
 
 fn lay() -> impl Strategy<Value = u32> {
@@ -865,8 +965,9 @@ fn raw_step(macro_weight: f64) -> impl Strategy<Value = RawStep> {
         prop::option::weighted(0.17, 0u8..6),
         prop::option::weighted(0.17, 0u8..6),
         lay(),
+        any::<u8>(),
     )
-        .prop_map(|(is_macro, sel, a, b, c, inv, of, oi, lay)| RawStep { is_macro, sel, a, b, c, inv, of, oi, lay })
+        .prop_map(|(is_macro, sel, a, b, c, inv, of, oi, lay, ow)| RawStep { is_macro, sel, a, b, c, inv, of, oi, lay, ow })
 }
 
 #[derive(Clone, Debug)]
@@ -895,18 +996,31 @@ fn probe() -> impl Strategy<Value = P4> {
 const INV_SP: [Sp; 5] = [Sp::Suffix, Sp::Infix, Sp::Prefix, Sp::SuffixTrue, Sp::InfixTrue];
 const OMIT_SP: [Sp; 6] = [Sp::Sugar, Sp::Prefix, Sp::Suffix, Sp::Infix, Sp::SuffixTrue, Sp::InfixTrue];
 
-fn build_step(rs: &RawStep, candidates: &[usize], omits: bool) -> Step {
+fn build_step(rs: &RawStep, candidates: &[usize], tainted: &[bool], omits: bool) -> Step {
     let target = if rs.is_macro && !candidates.is_empty() {
         Target::Macro(candidates[pick(rs.sel, candidates.len())])
+    } else if rs.ow < 20 {
+        let (name, params) = one_way_elem(rs.a, rs.b, rs.c);
+        Target::Elem { name, params }
     } else {
         let (name, params) = elem(rs.sel, rs.a, rs.b, rs.c);
         Target::Elem { name, params }
     };
+    let mut omit_inv = if omits { rs.oi.map(|i| OMIT_SP[i as usize % 6]) } else { None };
+    // the realistic use of a step without an inverse is "forward only": about half of the one-way
+    // steps (elementary, or macro invocations with such an operator below) are marked omit_inv / `>`
+    let one_way_step = match &target {
+        Target::Elem { name, .. } => one_way(name),
+        Target::Macro(j) => tainted[*j],
+    };
+    if omits && one_way_step && omit_inv.is_none() && rs.ow % 2 == 0 {
+        omit_inv = Some(OMIT_SP[(rs.ow as usize / 2) % 6]);
+    }
     Step {
         target,
         inv: rs.inv.map(|i| INV_SP[i as usize % 5]),
         omit_fwd: if omits { rs.of.map(|i| OMIT_SP[i as usize % 6]) } else { None },
-        omit_inv: if omits { rs.oi.map(|i| OMIT_SP[i as usize % 6]) } else { None },
+        omit_inv,
         lay: rs.lay,
     }
 }
@@ -922,23 +1036,30 @@ struct Known {
 fn build(macros: &[RawBody], main: &RawBody, probes: Vec<P4>, nprobes: u8, kn: Known) -> Case {
     let mut defs: Vec<MacroDef> = vec![];
     let mut level: Vec<usize> = vec![];
+    let mut tainted: Vec<bool> = vec![];
     for (i, rb) in macros.iter().enumerate().take(NAMES.len()) {
         // a macro may only use earlier macros (no recursion) whose nesting level is < 3
         let cand: Vec<usize> = (0..i).filter(|j| level[*j] < 3).collect();
         let piped = rb.kind >= 3;
-        let steps: Vec<Step> = if piped { rb.steps.iter().map(|rs| build_step(rs, &cand, true)).collect() } else { vec![build_step(&rb.steps[0], &cand, false)] };
+        let steps: Vec<Step> = if piped { rb.steps.iter().map(|rs| build_step(rs, &cand, &tainted, true)).collect() } else { vec![build_step(&rb.steps[0], &cand, &tainted, false)] };
         let lv = 1 + steps.iter().map(|s| if let Target::Macro(m) = s.target { level[m] } else { 0 }).max().unwrap_or(0);
         level.push(lv);
-        defs.push(MacroDef { name: NAMES[i].to_string(), body: Body { steps, piped, lay: rb.lay, spicy: rb.spicy } });
+        let body = Body { steps, piped, lay: rb.lay, spicy: rb.spicy };
+        let t = tainted_body(&body, &tainted);
+        tainted.push(t);
+        defs.push(MacroDef { name: NAMES[i].to_string(), body });
     }
     let cand: Vec<usize> = (0..defs.len()).collect();
     let piped = main.kind >= 1;
-    let steps: Vec<Step> = if piped { main.steps.iter().map(|rs| build_step(rs, &cand, true)).collect() } else { vec![build_step(&main.steps[0], &cand, false)] };
+    let steps: Vec<Step> = if piped { main.steps.iter().map(|rs| build_step(rs, &cand, &tainted, true)).collect() } else { vec![build_step(&main.steps[0], &cand, &tainted, false)] };
     let mut probes = probes;
     // ~4% empty sets, otherwise 1..8 tuples
     probes.truncate(if nprobes < 10 { 0 } else { 1 + pick(((nprobes - 10) as u16) << 8, 8) });
     let mut case = Case { macros: defs, main: Body { steps, piped, lay: main.lay, spicy: main.spicy }, probes, excluded: vec![] };
+    strip_unsound_inv(&mut case);
     sanitize(&mut case, kn);
+    // the repairs above may remove an omit_inv that shielded a one-way operator
+    strip_unsound_inv(&mut case);
     case
 }
 
@@ -1180,6 +1301,75 @@ fn matrix_case(i: usize) -> Case {
     }
 }
 
+// ---- exhaustive matrix for steps without an inverse ------------------------------------------------
+
+const OW_KIND: usize = 6;
+const OW_COMBO: usize = 7 * 7;
+
+fn one_way_matrix_case(i: usize) -> Case {
+    let combo = i % OW_COMBO;
+    let kind = (i / OW_COMBO) % OW_KIND;
+    let ctxk = (i / OW_COMBO / OW_KIND) % N_CTX;
+    let layout = i / OW_COMBO / OW_KIND / N_CTX;
+    let lay = if layout == 0 { 0 } else { 0x0e0e_0000 ^ (i as u32).wrapping_mul(2654435761) | 1 };
+    let (cf, co) = (combo % 7, combo / 7);
+    let focus_target = match kind {
+        0 => el("gravity", vec![fl("grs80")]),
+        1 => el("curvature", vec![fl("mean"), kv("ellps", "intl")]),
+        2 => Target::Macro(0), // single one-way operator
+        3 => Target::Macro(1), // pipeline body containing a one-way operator
+        4 => Target::Macro(2), // one-way operator two macro levels down
+        _ => Target::Macro(3), // pipeline body whose one-way step is marked `>` inside
+    };
+    let focus = Step {
+        target: focus_target,
+        inv: None,
+        omit_fwd: if cf == 0 { None } else { Some(OMIT_SP[cf - 1]) },
+        omit_inv: if co == 0 { None } else { Some(OMIT_SP[co - 1]) },
+        lay,
+    };
+    let shielded_focus = focus.omit_inv.is_some() || kind == 5;
+    let mut a_inv = plain(el("addone", vec![]));
+    a_inv.inv = Some(Sp::Suffix);
+    let mut g67 = plain(el("gravity", vec![fl("grs67")]));
+    g67.omit_inv = Some(Sp::Sugar);
+    let hy = plain(el("helmert", vec![kv("y", 1)]));
+    let hz = plain(el("helmert", vec![kv("z", 3)]));
+    let q_steps = match ctxk {
+        5 => vec![focus.clone(), hz],
+        6 => vec![hy, focus.clone()],
+        _ => vec![hy, focus.clone(), hz],
+    };
+    let body = |steps: Vec<Step>, piped: bool| Body { steps, piped, lay, spicy: false };
+    let macros = vec![
+        MacroDef { name: "g:normal".into(), body: body(vec![plain(el("gravity", vec![fl("grs80")]))], false) },
+        MacroDef { name: "g:annotate".into(), body: body(vec![plain(el("addone", vec![])), plain(el("curvature", vec![fl("mean")])), a_inv], true) },
+        MacroDef { name: "g:deep".into(), body: body(vec![plain(el("helmert", vec![kv("x", 2)])), plain(Target::Macro(0)), plain(el("noop", vec![]))], true) },
+        MacroDef { name: "g:safe".into(), body: body(vec![plain(el("addone", vec![])), g67, plain(el("helmert", vec![kv("y", 1)]))], true) },
+        MacroDef { name: "q:focus".into(), body: body(q_steps, true) },
+    ];
+    let a1 = plain(el("addone", vec![]));
+    let mut q = plain(Target::Macro(4));
+    if shielded_focus {
+        // only a macro whose one-way steps are all shielded by omit_inv may be inverted
+        q.inv = Some(Sp::Suffix);
+    }
+    let main_steps = match ctxk {
+        0 => vec![focus],
+        1 => vec![a1, focus, plain(el("helmert", vec![kv("x", 3), kv("y", 4)]))],
+        2 => vec![focus, a1],
+        3 => vec![a1, focus],
+        4 | 5 | 6 => vec![a1.clone(), plain(Target::Macro(4)), a1],
+        _ => vec![a1, q, plain(el("cart", vec![]))],
+    };
+    Case {
+        macros,
+        main: body(main_steps, true),
+        probes: vec![p4(12.0, 55.0, 100.0, 0.0), p4(f64::NAN, 1.0, 2.0, 3.0), p4(-71.0, -33.0, 2500.0, 2.0)],
+        excluded: vec![],
+    }
+}
+
 // ---- known findings (read only) -----------------------------------------------------------------------
 
 fn load_known(root: &std::path::Path) -> BTreeSet<String> {
@@ -1207,6 +1397,7 @@ fn main() {
     run.note("known_classes_excluded_by_construction", serde_json::json!(known.iter().collect::<Vec<_>>()));
     run.assume("the reference instantiates every elementary step on its own through the same ctx.op / ctx.apply (same operator code): only composition, order, direction, omission and counting are checked, not the numerics of the operators");
     run.assume("omit_fwd / omit_inv are generated only on steps of a pipeline (a definition or macro body containing a step delimiter), as documented; omit_*=false and repeated modifiers are not generated; key=true forms only after the operator name");
+    run.assume("an operator without an inverse (gravity, curvature) applied in the inverse direction behaves like its stand-alone instance: data untouched, count 0 (the placeholder of the library); inv is never put on such an operator nor on a macro with an unshielded one below it (NonInvertible / not promised)");
     run.assume("macros are invoked without ordinary arguments (argument passing is C04); stack/push/pop steps are excluded (C12)");
     run.assume("a case in which a stand-alone step panics is skipped (robustness is C09); NaN results are compared as equal whatever their payload");
 
@@ -1222,6 +1413,18 @@ fn main() {
         );
     }
 
+    // 1b. exhaustive: steps without an inverse (gravity, curvature), plain / omit_fwd / omit_inv, elementary and behind macros
+    {
+        let known = known.clone();
+        run.enumerate(
+            "one-way-matrix",
+            "one focus step without an inverse (gravity grs80 / curvature mean ellps= / macro g:normal = 'gravity grs80' / macro with pipeline body 'addone | curvature mean | addone inv' / macro nesting g:normal two levels down / macro whose gravity step is marked '>' inside) carrying every subset of {omit_fwd, omit_inv} in every spelling (49 combinations, the modifier of a macro focus is on the invocation) x the 8 contexts of spelling-matrix (the enclosing macro is inverted only if the focus is shielded by omit_inv) x plain and seeded layout; both directions: an executed inverse of a one-way step leaves the data alone and reports 0 like the stand-alone operator, the other steps must still run in reverse order",
+            OW_COMBO * OW_KIND * N_CTX * N_LAYOUT,
+            one_way_matrix_case,
+            move |c: &Case, rec: &mut Rec| check(c, &known, rec),
+        );
+    }
+
     // 2. random pipelines
     {
         let n = run.scale(100_000, 1_200_000);
@@ -1229,7 +1432,7 @@ fn main() {
         let known = known.clone();
         run.section(
             "random-pipelines",
-            "definitions of 1..8 steps (thorough: 1..12) over 13 elementary operators (addone, helmert translation/7-parameter, axisswap, unitconvert, adapt, noop aliases, utm, tmerc, cart, merc, webmerc, latitude) and up to 6 user macros (single operator, alias of another macro, or pipeline of 1..4 steps (thorough: 1..6) with directional steps; nested to depth 3); every step draws inv (40%) / omit_fwd (17%) / omit_inv (17%) with a random spelling and position, random layout (blanks, tabs, line breaks, continuation colons, comments, leading delimiter, blanks around '='); 0..8 probe tuples (geographic, projected, cartesian, small integers, NaN, inf, 1e300); non-trivial = some modifier present and >= 2 elementary steps executed in some direction; distinct by spelled AST",
+            "definitions of 1..8 steps (thorough: 1..12) over 13 invertible elementary operators (addone, helmert translation/7-parameter, axisswap, unitconvert, adapt, noop aliases, utm, tmerc, cart, merc, webmerc, latitude) plus, for 8% of the elementary steps, the operators without an inverse (gravity, curvature: never with inv, about half of them - and of the macro invocations above them - marked omit_inv, a macro is inverted only if all one-way steps below it are shielded by omit_inv) and up to 6 user macros (single operator, alias of another macro, or pipeline of 1..4 steps (thorough: 1..6) with directional steps; nested to depth 3); every step draws inv (40%) / omit_fwd (17%) / omit_inv (17%) with a random spelling and position, random layout (blanks, tabs, line breaks, continuation colons, comments, leading delimiter, blanks around '='); 0..8 probe tuples (geographic, projected, cartesian, small integers, NaN, inf, 1e300); non-trivial = some modifier present and >= 2 elementary steps executed in some direction; distinct by spelled AST",
             n,
             move || random_case(kn, max_main, max_body, 0.38),
             move |c: &Case, rec: &mut Rec| check(c, &known, rec),
